@@ -13,7 +13,9 @@ def run(cx):
     cx.floor("C02.R1", "Ok returns of handle()", len(h.ok_assigns), 4)
     r1_upgrade_iface(cx, h)
     r1_pop(cx, h)
+    r1_fresh(cx, h)
     r2(cx)
+    r2_upgrade_tail(cx)
     r3(cx)
 
 
@@ -66,6 +68,90 @@ def r1_pop(cx, h):
     cx.check(good, "C02.R1", "handle:strip-NUL", "%s %s" % (fs.sp, body.path),
              "the read buffer is not stripped of exactly one trailing byte before parsing (pop calls: %d, other shrinking calls: %d)" % (len(pops), len(truncs)),
              note_ok="one Vec::pop on the message buffer dominates from_slice")
+
+
+def r1_fresh(cx, h):
+    """every read_until starts from an empty message buffer: between two reads (and before the first) the buffer is created anew or cleared"""
+    body, cfg, du = h.body, h.cfg, h.du
+    fresh = set()
+    for t in body.calls("=new", "=clear", "=with_capacity"):
+        if t.callee.name in ("new", "with_capacity") and "Vec" in t.callee.path and t.dest.l in h.buf_locals: fresh.add(t.target)
+        if t.callee.name == "clear" and t.args and hc.base_local(du, t.args[0]) in h.buf_locals: fresh.add(t.target)
+    for i, t in enumerate(h.read_untils):
+        from_entry = cfg.must_pass(0, [t.bb], fresh)
+        again = cfg.must_pass(t.target, [t.bb], fresh)
+        cx.check(from_entry and again, "C02.R1", "handle:read_until#%d:fresh-buffer" % i, "%s %s" % (t.sp, body.path),
+                 "a path reaches read_until with a message buffer that may still hold bytes of an earlier message (%s): the next message would be glued to stale bytes" %
+                 ("from the previous read" if from_entry else "from entry"),
+                 note_ok="buffer is new/cleared on every path into read_until")
+
+
+def r2_upgrade_tail(cx):
+    """listen worker: after an Ok from handle(), the loop may only be left (or block for more input) with the tail abandoned when it is empty or no upgrade just happened"""
+    body = cx.mir.one("varlink", "server::listen::{closure#1}")
+    cx.saw(body)
+    cfg = Cfg(body); du = DefUse(body)
+    from vlib.cfg import enumerate_paths
+    hcalls = [t for t in body.calls("=handle") if "ConnectionHandler" in t.callee.path]
+    for i, t in enumerate(hcalls):
+        key = "listen-worker:handle#%d:upgrade-tail-not-abandoned" % i
+        site = "%s %s" % (t.sp, body.path)
+        sw = None
+        for b in sorted(cfg.reach(t.target)):
+            term = body.blocks[b].term
+            if term.kind == "switch":
+                c = switch_cond(body, du, term)
+                if c.kind == "discr" and c.place.l == t.dest.l and not c.place.p: sw = term; break
+        if sw is None:
+            cx.bad("C02.R2", key, site, "result of handle() is not matched"); continue
+        ok_edge = variant_edge(sw, 0)
+        tuples = tail_places(body, du, t)
+        seeds_tail = set(); seeds_if = set()
+        for s in body.stmts():
+            if s.kind != "assign": continue
+            srcs = [o.place for o in s.ops if o.place is not None] + ([s.rplace] if s.rplace is not None else [])
+            for p in srcs:
+                if any(e.startswith("as Err") for e in p.p): continue
+                f = tuple(p.fields())
+                for (l, pre) in tuples:
+                    if p.l == l and f[:len(pre) + 1] == pre + ("0",): seeds_tail.add(s.lhs.l)
+                    if p.l == l and f[:len(pre) + 1] == pre + ("1",): seeds_if.add(s.lhs.l)
+        Tt = forward_taint(body, du, seeds_tail, no_flow=("=is_empty", "=is_some", "=is_none", "=len"))
+        # edges that establish "tail is empty" or "no upgrade happened in this step"
+        good_edges = set()
+        for b in body.blocks:
+            if b.cleanup or b.term.kind != "switch": continue
+            term = b.term
+            c = switch_cond(body, du, term)
+            if c.kind == "call" and c.term.callee.name == "is_empty" and c.term.args and any(l in Tt for l in ref_chain(du, c.term.args[0].place.l)):
+                te, fe = bool_edges(term, c); good_edges.add((te[0], te[2]))
+            # a bool whose definitions include is_some(<returned interface>)
+            loc = term.discr.place.l if term.discr.place is not None and not term.discr.place.p else None
+            for _ in range(4):
+                if loc is None: break
+                ds = du.defs.get(loc, [])
+                hit = False
+                for k, d in ds:
+                    if k == "call" and d.callee.name == "is_some" and d.args and any(l in seeds_if for l in ref_chain(du, d.args[0].place.l)): hit = True
+                if hit:
+                    for lab, dst in cfg.succ[b.idx]:
+                        if lab == 0: good_edges.add((b.idx, dst))
+                    break
+                nxt = [d for k, d in ds if k == "stmt" and d.kind == "assign" and d.rv == "use" and d.ops[0].place is not None]
+                loc = nxt[0].ops[0].place.l if len(nxt) == 1 and len(ds) == 1 else None
+        blocking = {x.bb for x in body.calls("=fill_buf", "=read", "=read_until", "=read_exact", "=read_line") if x.bb != t.bb}
+        stops = {t.bb} | blocking
+        paths = enumerate_paths(cfg, ok_edge[2], lambda blk: blk.idx in stops or blk.term.kind == "return", du=du)
+        badp = []
+        for p in paths:
+            end = p[-1]
+            if end == t.bb: continue                      # goes straight back into handle(): tail is re-fed (R2)
+            edges = set(zip(p, p[1:]))
+            if edges & good_edges: continue
+            badp.append(p)
+        cx.check(not badp and bool(good_edges), "C02.R2", key, site,
+                 "%d path(s) from handle()'s Ok edge block on the stream or leave the loop although an upgrade may just have happened with bytes still in the tail (e.g. blocks %s): those bytes never reach call_upgraded" % (len(badp), badp[0][:25] if badp else "-"),
+                 note_ok="%d paths; waiting/leaving only behind `tail.is_empty()` or `no upgrade`" % len(paths), witness={"path": badp[0] if badp else None})
 
 
 def tail_places(body, du, t):
